@@ -418,7 +418,7 @@ func c10Tables(repo string, args []string) (string, error) {
 	}
 	var sb strings.Builder
 	sb.WriteString("(* GENERATED by go2coq c10tables from ruleguard/typematch/typematch.go -- do not edit. *)\n")
-	sb.WriteString("From Coq Require Import List ZArith Bool String.\nFrom RG.Types Require Import GoStrings.\nImport ListNotations.\nLocal Open Scope string_scope.\n\n")
+	sb.WriteString("From Coq Require Import List ZArith Bool String.\nFrom RG.Types Require Import GoStrings MatchSkel.\nImport ListNotations.\nLocal Open Scope string_scope.\n\n")
 
 	// ---- 1. case opNamed of matchIdentical
 	var clause *ast.CaseClause
@@ -538,6 +538,11 @@ func c10Tables(repo string, args []string) (string, error) {
 			qs = append(qs, c20q(p))
 		}
 		fmt.Fprintf(&sb, "(* Pattern.matchIdentical: the statements in front of the dispatch, and the dispatch's tag *)\nDefinition gen_match_prologue : list string := [%s].\nDefinition gen_match_switch_tag : string := %s.\n\n", strings.Join(qs, "; "), c20q(tag))
+	}
+
+	// ---- 1c. the control skeleton of the matcher (c10skel.go)
+	if err := c10Skeleton(fset, f, &sb); err != nil {
+		return "", err
 	}
 
 	// ---- 2. builtinTypeByName
